@@ -937,3 +937,44 @@ package yqlib
 //@   loop 3:
 //@     invariant contentLength == len(node.Content) && index == intOf(indexNode.Value) && indexToUse == index && fresh(newMatches)
 //@     invariant @reads implies(allInRange(indices, n0), contentLength == n0 && readsSoFar(node, indices, newMatches, n0, len(newMatches)))
+
+// ---------------------------------------------------------------------------------------------
+// candidate_node.go: replacements; operator_slice.go: .[a:b] (C01)
+//
+// Reference semantics of .[a:b] on an array of length n: from = a if a >= 0 else max(n+a, 0); to = min(b, n)
+// if b >= 0 else n+b; the result is a new sequence holding elements from..to-1 in order (empty if from >= to).
+
+//@ func (*CandidateNode).CopyAsReplacement
+//@   props C16 C11
+//@   requires n != nil && replacement != nil
+//@   ensures result != nil && fresh(result) && sameScalarAttrs(result, replacement) && result.Parent == n.Parent && len(result.Content) == len(replacement.Content) && freshSlice(result.Content)
+//@   ensures @key {C16} result.Key == ite(n.IsMapKey, n, n.Key)
+
+//@ func (*CandidateNode).CreateReplacement
+//@   props C16 C11
+//@   requires n != nil
+//@   ensures result != nil && fresh(result) && result.Kind == kind && result.Tag == tag && result.Value == value && result.Parent == n.Parent && len(result.Content) == 0 && freshSlice(result.Content)
+//@   ensures @key {C16} result.Key == ite(n.IsMapKey, n, n.Key)
+
+//@ pred sliceFrom(a, n) = ite(a >= 0, a, ite(n + a >= 0, n + a, 0))
+//@ pred sliceTo(b, n) = ite(b >= 0, ite(b <= n, b, n), n + b)
+
+//@ func getSliceNumber
+//@   props C01 C08 C11
+//@   requires d != nil && node != nil && expressionNode != nil
+//@   readonly-if context.DontAutoCreate
+
+//@ func sliceArrayOperator
+//@   props C01 C08 C11
+//@   requires d != nil && validCtx(context) && expressionNode != nil && expressionNode.LHS != nil && expressionNode.RHS != nil && expressionNode.LHS.Operation != nil && expressionNode.RHS.Operation != nil
+//@   requires expressionNode.LHS.Operation.OperationType != nil && expressionNode.RHS.Operation.OperationType != nil
+//@   readonly-if context.DontAutoCreate
+//@   at AddChildren: assert @slice-elements {C01} len(newResults) == ite(sliceTo(secondNumber, len(lhsNode.Content)) > sliceFrom(firstNumber, len(lhsNode.Content)), sliceTo(secondNumber, len(lhsNode.Content)) - sliceFrom(firstNumber, len(lhsNode.Content)), 0) && forall(j, 0, len(newResults), newResults[j] == lhsNode.Content[sliceFrom(firstNumber, len(lhsNode.Content)) + j])
+//@   at AddChildren: assert @new-sequence {C01} sliceArrayNode != nil && sliceArrayNode.Kind == SequenceNode && len(sliceArrayNode.Content) == 0 && sliceArrayNode.Tag == lhsNode.Tag
+//@   ensures @one-result-per-input {C01} implies(result1 == nil, result0.MatchingNodes != nil && len(result0.MatchingNodes) == len(context.MatchingNodes))
+//@   loop 1:
+//@     invariant @position (el == nil && iter() == len(context.MatchingNodes)) || (el != nil && elList(el) == context.MatchingNodes && elIdx(el) == iter())
+//@     invariant @results fresh(results) && len(results) == iter() && nodeList(context.MatchingNodes)
+//@   loop 2:
+//@     invariant relativeFirstNumber <= i && len(newResults) == i - relativeFirstNumber && implies(relativeFirstNumber < relativeSecondNumber, i <= relativeSecondNumber) && freshSlice(newResults)
+//@     invariant forall(j, 0, len(newResults), newResults[j] == lhsNode.Content[relativeFirstNumber + j])
